@@ -36,14 +36,21 @@ def site_key(rule, s, extra=""):
 
 
 def _disambiguate(sites):
-    """stable keys for several sites of the same kind in one function: suffix with tested fields"""
+    """stable keys for several sites of the same kind in one function: suffix with tested fields.  Each site also gets
+    `alt_keys`: the same key under the function(s) it may have been extracted from (single-caller chain)."""
     out = {}
     cnt = defaultdict(int)
     for s in sites:
-        base = "%s|%s|fields=%s|cmp=%s" % (s.owner, s.descr(), ",".join(sorted(s.fields)) or "-", ",".join(sorted(set(s.path_cmp))) or "-")
+        tail = "%s|fields=%s|cmp=%s" % (s.descr(), ",".join(sorted(s.fields)) or "-", ",".join(sorted(set(s.path_cmp))) or "-")
+        base = "%s|%s" % (s.owner, tail)
         cnt[base] += 1
         out[id(s)] = base if cnt[base] == 1 else "%s#%d" % (base, cnt[base])
+        s.alt_keys = ["%s|%s" % (o, tail) for o in getattr(s, "owner_alts", [])]
     return out
+
+
+def _alts(rule, s):
+    return ["%s|%s" % (rule, k) for k in getattr(s, "alt_keys", [])]
 
 
 def r5a_visibility(ctx, fns=None, rule="R5a"):
@@ -62,7 +69,7 @@ def r5a_visibility(ctx, fns=None, rule="R5a"):
             r.review(key, REVIEWED[key])
         else:
             r.violate(key, "selection `%s` in %s at %s picks a definition by name alone (no visibility test on the element)" % (
-                s.descr(), s.fn.id, ctx.bin.span_str(s.span)))
+                s.descr(), s.fn.id, ctx.bin.span_str(s.span)), aliases=_alts(rule, s))
     r.counts["selection_sites"] = len(sites)
     return r
 
@@ -429,7 +436,8 @@ def r4c_order_sensitive(ctx):
             r.review(key, REVIEWED[key])
         else:
             r.violate(key, "order-sensitive selection `%s` in %s at %s is not pinned to one file: with two candidates the answer "
-                           "depends on which file was analysed first" % (s.descr(), s.fn.id, ctx.bin.span_str(s.span)))
+                           "depends on which file was analysed first" % (s.descr(), s.fn.id, ctx.bin.span_str(s.span)),
+                      aliases=_alts("R4c", s))
     r.floor("order-sensitive selection sites", n, 15)
     return r
 
